@@ -95,7 +95,7 @@ def live_clock_and_start(rng, seg_s: float = 4.0, ref_s: float = 40.0, plus_offs
     if ast < datetime.datetime(1971, 1, 1, tzinfo=UTC):
         ast = datetime.datetime(1971, 1, 1, tzinfo=UTC)
     if plus_offsets and rng.random() < 0.15:
-        off = rng.choice([60, 330, -300, 120, -720])
+        off = rng.choice([60, 330, -300, 120, -720, -210, -570, -30, 345, 765])
         tz = datetime.timezone(datetime.timedelta(minutes=off))
         return now, ast.astimezone(tz).isoformat()
     return now, isoz(ast)
